@@ -442,6 +442,12 @@ def eval_call(c, env, depth):
                 return ("opt", "None", None)
             return ("opt", "Some", v)
         return UNK
+    if (p in ("core::slice::<impl [T]>::len", "std::vec::Vec::<T, A>::len") or (c.name == "len" and len(c.args) == 1)) and any(
+            isinstance(k_, tuple) and k_ and k_[0] == "lenof" for k_ in env):
+        # lengths of (views of) slices whose length the caller fixed in env[("lenof", fnkey, local)]
+        if args is None:
+            args = call_arg_exprs(c)
+        return len_value(args[0], env, depth + 1) if args else UNK
     if p == "std::ops::Try::branch":
         x = arg(0)
         if _is(x, "res"):
@@ -816,3 +822,46 @@ def ok_capable_combos(fn, e, cap=24):
             return [[]]
         out.append([def_sites(fn, k[1])[i][0] for k, i in zip(keys, combo)])
     return out
+
+
+def len_value(x, env, depth=0):
+    """length of the slice an expression denotes, given env[("lenof", fnkey, local)] for whole
+    parameter slices: index ranges, split_at halves and view adapters are computed"""
+    if x is None or depth > 30:
+        return UNK
+    if x.k == "local":
+        fn_ = x.b
+        return env.get(("lenof", fn_.key if fn_ is not None else None, x.a), UNK)
+    if x.k == "cast":
+        return len_value(x.a, env, depth + 1)
+    if x.k == "field" and x.b in ("0", "1") and x.a.k == "call" and x.a.a.name in ("split_at", "split_at_mut"):
+        ax = call_arg_exprs(x.a.a)
+        base, k = len_value(ax[0], env, depth + 1), evaluate(ax[1], env, depth + 1)
+        if isinstance(k, int) and not isinstance(k, bool):
+            if x.b == "0":
+                return k
+            if isinstance(base, int):
+                return base - k
+        return UNK
+    if x.k == "call":
+        c = x.a
+        ax = call_arg_exprs(c)
+        if c.name in ("index", "index_mut") and len(ax) == 2 and ax[1].k == "agg" and ax[1].a:
+            nm = ax[1].a.split("::")[-1]
+            vals = [evaluate(o, env, depth + 1) for o in (ax[1].c or [])]
+            vals = [v[1] if isinstance(v, tuple) and v and v[0] == "ovf" else v for v in vals]
+            if any(not isinstance(v, int) or isinstance(v, bool) for v in vals):
+                return UNK
+            if nm == "Range":
+                return vals[1] - vals[0]
+            if nm == "RangeTo":
+                return vals[0]
+            if nm == "RangeFull":
+                return len_value(ax[0], env, depth + 1)
+            if nm == "RangeFrom":
+                base = len_value(ax[0], env, depth + 1)
+                return base - vals[0] if isinstance(base, int) else UNK
+            return UNK
+        if c.name in ("as_slice", "as_mut_slice", "deref", "deref_mut", "as_ref", "as_mut", "unwrap_or", "unwrap", "expect", "borrow") and ax:
+            return len_value(ax[0], env, depth + 1)
+    return UNK
